@@ -872,8 +872,8 @@ def controller(rec):
             nb = c.get_n_parameters(exclude_pop_model=True)
             if len(c.get_parameter_names(exclude_pop_model=True)) != nb:
                 return 'count-names', 'get_n_parameters(exclude_pop_model=True) = %s, names %s' % (nb, c.get_parameter_names(exclude_pop_model=True))
-            if c._data is None:
-                return None
+            if c._data is None or n == 0:
+                return None          # no data yet / every parameter fixed: there is no posterior to construct (pints has no 0-dimensional prior)
             # a prior of the reported dimension must give a posterior of consistent dimension
             try:
                 import copy
